@@ -470,6 +470,6 @@ CLAUSES = [
                 "figures, Ethernet details, IOBUF chains of 0-4 blocks, all "
                 "VCPU fields, both version encodings); non-trivial = a dead "
                 "or silent chip and >= 2 distinct core-state patterns",
-           examples={"quick": 150, "thorough": 3000},
+           examples={"quick": 300, "thorough": 3000},
            shards={"quick": 8, "thorough": 16}),
 ]
